@@ -1,12 +1,522 @@
 /-
-  C01 — Optimisation never changes what is played.   (placeholder layer; rewrite-soundness
-  theorems are being ported from notes/proto_fold_sound.lean)
+  C01 — Optimisation never changes what is played.
+
+  Rewrite soundness of the two rewrites `Optimizer::apply_match` performs on the flat event
+  lists of a song (src/optimizer.cpp), against the specification of what a track means
+  (`Spec/Tree.parse`, `Spec/Expand.perf`):
+
+  * loop fold:  `A·A^k·A0 ↦ [ A0 / A1 ](k+2)` with `A = A0·A1` (break only if there is a
+    remainder `A0`; otherwise `A^(k+1) ↦ [ A ](k+1)`),
+  * subroutine extraction: occurrences of `X ↦ JUMP id`, new track `id = X`.
+
+  What is compared is `obs` (`Spec/Played`): the played projection with durations, the total
+  length and the loop-point time of the expansion `perf song track`.
+
+  The theorems hold for EVERY song, every track list, every context `pre`/`post` around the
+  rewritten segment (the context need not be balanced: it may open loops that `post` closes,
+  contain stray `LOOP_END`s, …), and for every track of the song — the rewritten one and every
+  track that reaches it through calls.  They come in two forms:
+  * `…_sound`:    if both expansions are `.ok`, the observations are equal;
+  * `…_accepts`:  if the original expansion is `.ok`, the rewritten one is `.ok` (with the same
+                  observation) unless it is `.error .depth` — each rewrite adds one stack frame
+                  at the place of the rewrite, so a depth budget is unavoidable (defect D18).
+
+  The hypotheses "no `SEGNO`" and "no `DRUM_MODE`" under which the optimiser applies the
+  rewrites are NOT needed for these theorems: `obs` is compositional (`Rewrite.obs_append`) and
+  the inserted events are silent, so the loop-point time is preserved even if `A0`, `A1` or
+  `X` contain `SEGNO`; `DRUM_MODE` has no meaning in `Spec/Expand` (drum-mode calls are a
+  matter of the channel player, C12).  The theorems are therefore stated without them, which
+  is stronger.
+
+  The proofs are in `Proofs/Rewrite.lean`.
 -/
-import Ctrmml.Spec.Expand
+import Ctrmml.Proofs.Rewrite
 namespace Ctrmml.C01
-open Ctrmml Ctrmml.Expand
+open Ctrmml Ctrmml.Tree Ctrmml.Expand Ctrmml.Rewrite Tables
 
 /-- repeating an item list `n+1` times is one copy followed by `n` copies -/
 theorem C01_repeat_unfold (n : Nat) (l : List Item) : repeatItems (n + 1) l = l ++ repeatItems n l := rfl
+
+/-! ## the loop fold -/
+
+/-- side conditions of the loop fold with remainder -/
+structure FoldSide (A0 A1 : List Node) (k : Nat) (ls lb le : Event) : Prop where
+  c0 : closedL A0
+  c1 : closedL A1
+  b0 : hasTopBreak A0 = false
+  b1 : hasTopBreak A1 = false
+  kls : ls.kind = .loopStart
+  klb : lb.kind = .loopBreak
+  kle : le.kind = .loopEnd
+  zls : ls.on = 0 ∧ ls.off = 0
+  zlb : lb.on = 0 ∧ lb.off = 0
+  zle : le.on = 0 ∧ le.off = 0
+  count : le.param = (k : Int) + 2
+
+/-- the folded segment: the phrase `A0 A1`, `k` more copies, and the prefix `A0` -/
+def foldX (A0 A1 : List Node) (k : Nat) : List Event :=
+  flattenL (A0 ++ A1) ++ flattenL (List.replicate k (A0 ++ A1)).flatten ++ flattenL A0
+
+/-- what `apply_match` leaves in its place (`LOOP_START`, `LOOP_BREAK` at the break point,
+`LOOP_END` with `repeats = L/len + 1 + 1`) -/
+def foldX' (A0 A1 : List Node) (ls lb le : Event) : List Event :=
+  ls :: (flattenL A0 ++ lb :: flattenL A1 ++ [le])
+
+theorem foldX_eq (A0 A1 : List Node) (k : Nat) : foldX A0 A1 k = flattenL (foldSrc A0 A1 k) := by
+  simp [foldX, foldSrc, flattenL_append]
+
+theorem foldDstX_eq (A0 A1 : List Node) (ls lb le : Event) :
+    foldX' A0 A1 ls lb le = flattenL (foldDst A0 A1 ls lb le) := by
+  simp [foldX', foldDst, flattenL, flattenN, flattenL_append]
+
+/-- General form: songs whose tracks are equal up to folds of this shape at any number of
+places, root tracks likewise. -/
+theorem C01_fold_rel {A0 A1 : List Node} {k : Nat} {ls lb le : Event} (h : FoldSide A0 A1 k ls lb le)
+    {S S' : Song} (htr : SongRel (foldSrc A0 A1 k) (foldDst A0 A1 ls lb le) S S')
+    {root root' : List Event} (hroot : ERel (foldSrc A0 A1 k) (foldDst A0 A1 ls lb le) root root') :
+    ResRel (perf S root) (perf S' root') :=
+  perf_rel S S' (foldSrc_closed h.c0 h.c1 k) (foldDst_closed h.c0 h.c1 h.kls h.klb h.kle)
+    (fun _ _ _ hc => fold_FEq hc A0 A1 k ls lb le h.b0 h.b1 h.kls h.klb h.kle h.zls h.zlb h.zle h.count)
+    htr hroot
+
+theorem fold_songRel {A0 A1 : List Node} {k : Nat} {ls lb le : Event}
+    {S S' : Song} {l1 l2 : Tracks} {tid : Nat} {pre post : List Event}
+    (hS : S.tracks = l1 ++ (tid, pre ++ foldX A0 A1 k ++ post) :: l2)
+    (hS' : S'.tracks = l1 ++ (tid, pre ++ foldX' A0 A1 ls lb le ++ post) :: l2) :
+    SongRel (foldSrc A0 A1 k) (foldDst A0 A1 ls lb le) S S' := by
+  apply SongRel.of_tracks
+  rw [hS, hS', foldX_eq, foldDstX_eq]
+  exact TracksRel.one (ERel.refl _ _) l1 l2 tid (ERel.ctx _ _ pre post)
+
+/-- both directions at once, for a track `id` of the song -/
+theorem fold_track_rel {A0 A1 : List Node} {k : Nat} {ls lb le : Event} (h : FoldSide A0 A1 k ls lb le)
+    {S S' : Song} {l1 l2 : Tracks} {tid : Nat} {pre post : List Event}
+    (hS : S.tracks = l1 ++ (tid, pre ++ foldX A0 A1 k ++ post) :: l2)
+    (hS' : S'.tracks = l1 ++ (tid, pre ++ foldX' A0 A1 ls lb le ++ post) :: l2)
+    {id : Nat} {t t' : List Event} (ht : S.track? id = some t) (ht' : S'.track? id = some t') :
+    ResRel (perf S t) (perf S' t') := by
+  have htr := fold_songRel (A0 := A0) (A1 := A1) (k := k) (ls := ls) (lb := lb) (le := le) hS hS'
+  obtain ⟨t'', h1, hr⟩ := htr id t ht
+  rw [ht'] at h1
+  cases h1
+  exact C01_fold_rel h htr hr
+
+/-- **Loop fold, soundness.**  In a song one of whose tracks contains the segment
+`A·A^k·A0` (anywhere: `pre`, `post` arbitrary) replace that segment by `[ A0 / A1 ](k+2)`.
+Then every track `id` of the song — the rewritten track itself (`id = tid`, the root of its
+own performance) as well as any track that reaches it through calls — has the same observation
+before and after, whenever both performances validate. -/
+theorem C01_fold_sound {A0 A1 : List Node} {k : Nat} {ls lb le : Event} (h : FoldSide A0 A1 k ls lb le)
+    (S S' : Song) (l1 l2 : Tracks) (tid : Nat) (pre post : List Event)
+    (hS : S.tracks = l1 ++ (tid, pre ++ foldX A0 A1 k ++ post) :: l2)
+    (hS' : S'.tracks = l1 ++ (tid, pre ++ foldX' A0 A1 ls lb le ++ post) :: l2)
+    (id : Nat) (t t' : List Event) (ht : S.track? id = some t) (ht' : S'.track? id = some t')
+    (items items' : List Item) (hp : perf S t = .ok items) (hp' : perf S' t' = .ok items') :
+    obs items' = obs items :=
+  (fold_track_rel h hS hS' ht ht').sound hp hp'
+
+/-- **Loop fold, soundness for a root track that is not in the song map** (a player may be
+constructed on any event list): the song is unchanged, the root track is rewritten. -/
+theorem C01_fold_sound_root {A0 A1 : List Node} {k : Nat} {ls lb le : Event} (h : FoldSide A0 A1 k ls lb le)
+    (S : Song) (pre post : List Event)
+    (items items' : List Item) (hp : perf S (pre ++ foldX A0 A1 k ++ post) = .ok items)
+    (hp' : perf S (pre ++ foldX' A0 A1 ls lb le ++ post) = .ok items') :
+    obs items' = obs items := by
+  have htr : SongRel (foldSrc A0 A1 k) (foldDst A0 A1 ls lb le) S S :=
+    SongRel.of_tracks (TracksRel.refl (ERel.refl _ _) _)
+  have hr : ERel (foldSrc A0 A1 k) (foldDst A0 A1 ls lb le)
+      (pre ++ foldX A0 A1 k ++ post) (pre ++ foldX' A0 A1 ls lb le ++ post) := by
+    rw [foldX_eq, foldDstX_eq]; exact ERel.ctx _ _ pre post
+  exact (C01_fold_rel h htr hr).sound hp hp'
+
+/-- **Loop fold, acceptance.**  If the original performance validates, the folded one validates
+too (and plays the same) unless it runs out of stack frames: the only new failure a fold can
+cause is `.error .depth` (the fold adds one frame around `A0 A1`). -/
+theorem C01_fold_accepts {A0 A1 : List Node} {k : Nat} {ls lb le : Event} (h : FoldSide A0 A1 k ls lb le)
+    (S S' : Song) (l1 l2 : Tracks) (tid : Nat) (pre post : List Event)
+    (hS : S.tracks = l1 ++ (tid, pre ++ foldX A0 A1 k ++ post) :: l2)
+    (hS' : S'.tracks = l1 ++ (tid, pre ++ foldX' A0 A1 ls lb le ++ post) :: l2)
+    (id : Nat) (t t' : List Event) (ht : S.track? id = some t) (ht' : S'.track? id = some t')
+    (items : List Item) (hp : perf S t = .ok items) (hd : perf S' t' ≠ .error .depth) :
+    ∃ items', perf S' t' = .ok items' ∧ obs items' = obs items := by
+  have hr := fold_track_rel h hS hS' ht ht'
+  obtain ⟨y, hy⟩ := hr.accepts hp hd
+  exact ⟨y, hy, hr.sound hp hy⟩
+
+/-! ### the variant without remainder (no `LOOP_BREAK` is emitted) -/
+
+/-- side conditions of the loop fold without remainder: `k+1` copies of `A` -/
+structure Fold0Side (A : List Node) (k : Nat) (ls le : Event) : Prop where
+  c0 : closedL A
+  b0 : hasTopBreak A = false
+  kls : ls.kind = .loopStart
+  kle : le.kind = .loopEnd
+  zls : ls.on = 0 ∧ ls.off = 0
+  zle : le.on = 0 ∧ le.off = 0
+  count : le.param = (k : Int) + 1
+
+def fold0Src (A : List Node) (k : Nat) : List Node := (List.replicate (k + 1) A).flatten
+def fold0Dst (A : List Node) (ls le : Event) : List Node := [.loop ls A le]
+
+/-- `k+1` copies of the phrase -/
+def fold0X (A : List Node) (k : Nat) : List Event := flattenL (List.replicate (k + 1) A).flatten
+/-- `[ A ](k+1)` -/
+def fold0X' (A : List Node) (ls le : Event) : List Event := ls :: (flattenL A ++ [le])
+
+theorem fold0DstX_eq (A : List Node) (ls le : Event) : fold0X' A ls le = flattenL (fold0Dst A ls le) := by
+  simp [fold0X', fold0Dst, flattenL, flattenN]
+
+theorem C01_fold0_rel {A : List Node} {k : Nat} {ls le : Event} (h : Fold0Side A k ls le)
+    {S S' : Song} (htr : SongRel (fold0Src A k) (fold0Dst A ls le) S S')
+    {root root' : List Event} (hroot : ERel (fold0Src A k) (fold0Dst A ls le) root root') :
+    ResRel (perf S root) (perf S' root') :=
+  perf_rel S S' (closedL_replicate A h.c0 _) (by simp [closedL, Node.closed, h.c0, h.kls, h.kle])
+    (fun _ _ _ hc => fold0_FEq hc A k ls le h.b0 h.kls h.kle h.zls h.zle h.count)
+    htr hroot
+
+theorem fold0_track_rel {A : List Node} {k : Nat} {ls le : Event} (h : Fold0Side A k ls le)
+    {S S' : Song} {l1 l2 : Tracks} {tid : Nat} {pre post : List Event}
+    (hS : S.tracks = l1 ++ (tid, pre ++ fold0X A k ++ post) :: l2)
+    (hS' : S'.tracks = l1 ++ (tid, pre ++ fold0X' A ls le ++ post) :: l2)
+    {id : Nat} {t t' : List Event} (ht : S.track? id = some t) (ht' : S'.track? id = some t') :
+    ResRel (perf S t) (perf S' t') := by
+  have htr : SongRel (fold0Src A k) (fold0Dst A ls le) S S' := by
+    apply SongRel.of_tracks
+    rw [hS, hS', fold0DstX_eq]
+    exact TracksRel.one (ERel.refl _ _) l1 l2 tid (ERel.ctx _ _ pre post)
+  obtain ⟨t'', h1, hr⟩ := htr id t ht
+  rw [ht'] at h1
+  cases h1
+  exact C01_fold0_rel h htr hr
+
+/-- **Loop fold without remainder, soundness**: `A^(k+1) ↦ [ A ](k+1)`. -/
+theorem C01_fold0_sound {A : List Node} {k : Nat} {ls le : Event} (h : Fold0Side A k ls le)
+    (S S' : Song) (l1 l2 : Tracks) (tid : Nat) (pre post : List Event)
+    (hS : S.tracks = l1 ++ (tid, pre ++ fold0X A k ++ post) :: l2)
+    (hS' : S'.tracks = l1 ++ (tid, pre ++ fold0X' A ls le ++ post) :: l2)
+    (id : Nat) (t t' : List Event) (ht : S.track? id = some t) (ht' : S'.track? id = some t')
+    (items items' : List Item) (hp : perf S t = .ok items) (hp' : perf S' t' = .ok items') :
+    obs items' = obs items :=
+  (fold0_track_rel h hS hS' ht ht').sound hp hp'
+
+/-- **Loop fold without remainder, acceptance.** -/
+theorem C01_fold0_accepts {A : List Node} {k : Nat} {ls le : Event} (h : Fold0Side A k ls le)
+    (S S' : Song) (l1 l2 : Tracks) (tid : Nat) (pre post : List Event)
+    (hS : S.tracks = l1 ++ (tid, pre ++ fold0X A k ++ post) :: l2)
+    (hS' : S'.tracks = l1 ++ (tid, pre ++ fold0X' A ls le ++ post) :: l2)
+    (id : Nat) (t t' : List Event) (ht : S.track? id = some t) (ht' : S'.track? id = some t')
+    (items : List Item) (hp : perf S t = .ok items) (hd : perf S' t' ≠ .error .depth) :
+    ∃ items', perf S' t' = .ok items' ∧ obs items' = obs items := by
+  have hr := fold0_track_rel h hS hS' ht ht'
+  obtain ⟨y, hy⟩ := hr.accepts hp hd
+  exact ⟨y, hy, hr.sound hp hy⟩
+
+/-! ## subroutine extraction -/
+
+/-- side conditions of subroutine extraction: the phrase `X`, the inserted `JUMP` event `j` -/
+structure ExtractSide (X : List Node) (j : Event) : Prop where
+  cX : closedL X
+  bX : hasTopBreak X = false
+  kj : j.kind = .jump
+  zj : j.on = 0 ∧ j.off = 0
+
+theorem flatten_jump (j : Event) : flattenL [Node.ev j] = [j] := by simp [flattenL, flattenN]
+
+/-- General form: `S'` holds the phrase as track `trackIdOfParam j.param`; every track of `S`
+is a track of `S'` with any number of occurrences of the phrase replaced by `j`. -/
+theorem C01_extract_rel {X : List Node} {j : Event} (h : ExtractSide X j) {S S' : Song}
+    (hnew : S'.track? (trackIdOfParam j.param) = some (flattenL X))
+    (htr : SongRel X [.ev j] S S')
+    {root root' : List Event} (hroot : ERel X [.ev j] root root') :
+    ResRel (perf S root) (perf S' root') :=
+  perf_rel S S' h.cX (by simp [closedL, Node.closed, h.kj])
+    (fun k k' hlt _ => extract_FEq S S' X j k k' h.cX h.bX h.kj h.zj hnew hlt)
+    htr hroot
+
+/-- **Subroutine extraction, any number of occurrences in any tracks.**  `ts'` is the track
+list of `S` with occurrences of `flattenL X` replaced by `[j]` (`TracksRel (ERel X [.ev j])`:
+same ids, each track equal up to such replacements at segment positions); the new song is `ts'`
+with the fresh track `(id, flattenL X)` inserted anywhere.  Every ORIGINAL track has the same
+observation before and after, whenever both performances validate. -/
+theorem C01_extract_sound {X : List Node} {j : Event} (h : ExtractSide X j)
+    (S S' : Song) (m1 m2 : Tracks)
+    (hfresh : S.track? (trackIdOfParam j.param) = none)
+    (hrepl : TracksRel (ERel X [.ev j]) S.tracks (m1 ++ m2))
+    (hS' : S'.tracks = m1 ++ (trackIdOfParam j.param, flattenL X) :: m2)
+    (id : Nat) (t t' : List Event) (ht : S.track? id = some t) (ht' : S'.track? id = some t')
+    (items items' : List Item) (hp : perf S t = .ok items) (hp' : perf S' t' = .ok items') :
+    obs items' = obs items := by
+  obtain ⟨htr, hnew⟩ := SongRel.of_tracks_insert hrepl hS' hfresh
+  obtain ⟨t'', h1, hr⟩ := htr id t ht
+  rw [ht'] at h1
+  cases h1
+  exact (C01_extract_rel h hnew htr hr).sound hp hp'
+
+/-- **Subroutine extraction, acceptance**: the only new failure is `.error .depth` (the call
+occupies one frame). -/
+theorem C01_extract_accepts {X : List Node} {j : Event} (h : ExtractSide X j)
+    (S S' : Song) (m1 m2 : Tracks)
+    (hfresh : S.track? (trackIdOfParam j.param) = none)
+    (hrepl : TracksRel (ERel X [.ev j]) S.tracks (m1 ++ m2))
+    (hS' : S'.tracks = m1 ++ (trackIdOfParam j.param, flattenL X) :: m2)
+    (id : Nat) (t t' : List Event) (ht : S.track? id = some t) (ht' : S'.track? id = some t')
+    (items : List Item) (hp : perf S t = .ok items) (hd : perf S' t' ≠ .error .depth) :
+    ∃ items', perf S' t' = .ok items' ∧ obs items' = obs items := by
+  obtain ⟨htr, hnew⟩ := SongRel.of_tracks_insert hrepl hS' hfresh
+  obtain ⟨t'', h1, hr⟩ := htr id t ht
+  rw [ht'] at h1
+  cases h1
+  have hrr := C01_extract_rel h hnew htr hr
+  obtain ⟨y, hy⟩ := hrr.accepts hp hd
+  exact ⟨y, hy, hrr.sound hp hy⟩
+
+/-- **Subroutine extraction, one occurrence** `pre ++ flattenL X ++ post ↦ pre ++ [j] ++ post`
+in track `tid`. -/
+theorem C01_extract_one_sound {X : List Node} {j : Event} (h : ExtractSide X j)
+    (S S' : Song) (l1 l2 m1 m2 : Tracks) (tid : Nat) (pre post : List Event)
+    (hfresh : S.track? (trackIdOfParam j.param) = none)
+    (hS : S.tracks = l1 ++ (tid, pre ++ flattenL X ++ post) :: l2)
+    (hm : m1 ++ m2 = l1 ++ (tid, pre ++ [j] ++ post) :: l2)
+    (hS' : S'.tracks = m1 ++ (trackIdOfParam j.param, flattenL X) :: m2)
+    (id : Nat) (t t' : List Event) (ht : S.track? id = some t) (ht' : S'.track? id = some t')
+    (items items' : List Item) (hp : perf S t = .ok items) (hp' : perf S' t' = .ok items') :
+    obs items' = obs items := by
+  apply C01_extract_sound h S S' m1 m2 hfresh ?_ hS' id t t' ht ht' items items' hp hp'
+  rw [hS, hm, ← flatten_jump j]
+  exact TracksRel.one (ERel.refl _ _) l1 l2 tid (ERel.ctx _ _ pre post)
+
+/-- two occurrences in one track are an instance of `ERel` (and so on for any number) -/
+theorem erel_two (X : List Node) (j : Event) (p0 p1 p2 : List Event) :
+    ERel X [.ev j] (p0 ++ flattenL X ++ p1 ++ flattenL X ++ p2) (p0 ++ [j] ++ p1 ++ [j] ++ p2) := by
+  rw [← flatten_jump j]
+  simp only [List.append_assoc]
+  exact ERel.prepend _ _ p0 (ERel.repl (ERel.prepend _ _ p1 (ERel.repl (ERel.refl _ _ p2))))
+
+/-! ## sequences of passes -/
+
+/-- the observation of track `id` of a song (`none` if it is missing or does not validate) -/
+def obsOf (S : Song) (id : Nat) : Option Obs :=
+  match S.track? id with
+  | none => none
+  | some t =>
+    match perf S t with
+    | .ok items => some (obs items)
+    | .error _ => none
+
+/-- track `id` exists and validates -/
+def okTrack (S : Song) (id : Nat) : Prop := ∃ t items, S.track? id = some t ∧ perf S t = .ok items
+
+/-- one optimiser pass: one of the rewrites under its side conditions, applied at any number
+of places (the fold is applied at one place by `apply_match`; extraction at several) -/
+inductive Step (S S' : Song) : Prop
+  | fold (A0 A1 : List Node) (k : Nat) (ls lb le : Event) (h : FoldSide A0 A1 k ls lb le)
+      (htr : SongRel (foldSrc A0 A1 k) (foldDst A0 A1 ls lb le) S S')
+  | fold0 (A : List Node) (k : Nat) (ls le : Event) (h : Fold0Side A k ls le)
+      (htr : SongRel (fold0Src A k) (fold0Dst A ls le) S S')
+  | extract (X : List Node) (j : Event) (h : ExtractSide X j)
+      (hfresh : S.track? (trackIdOfParam j.param) = none)
+      (hnew : S'.track? (trackIdOfParam j.param) = some (flattenL X))
+      (htr : SongRel X [.ev j] S S')
+
+/-- every step keeps every track and relates the performances -/
+theorem Step.rel {S S' : Song} (h : Step S S') {id : Nat} {t : List Event} (ht : S.track? id = some t) :
+    ∃ t', S'.track? id = some t' ∧ ResRel (perf S t) (perf S' t') := by
+  cases h with
+  | fold A0 A1 k ls lb le h htr =>
+    obtain ⟨t', h1, hr⟩ := htr id t ht
+    exact ⟨t', h1, C01_fold_rel h htr hr⟩
+  | fold0 A k ls le h htr =>
+    obtain ⟨t', h1, hr⟩ := htr id t ht
+    exact ⟨t', h1, C01_fold0_rel h htr hr⟩
+  | extract X j h _ hnew htr =>
+    obtain ⟨t', h1, hr⟩ := htr id t ht
+    exact ⟨t', h1, C01_extract_rel h hnew htr hr⟩
+
+theorem Step.preserve {S S' : Song} (h : Step S S') {id : Nat} (h0 : okTrack S id) (h1 : okTrack S' id) :
+    obsOf S' id = obsOf S id := by
+  obtain ⟨t, items, ht, hp⟩ := h0
+  obtain ⟨t', items', ht', hp'⟩ := h1
+  obtain ⟨t'', h2, hr⟩ := h.rel ht
+  rw [ht'] at h2
+  cases h2
+  simp only [obsOf, ht, ht', hp, hp', hr.sound hp hp']
+
+theorem Step.accepts {S S' : Song} (h : Step S S') {id : Nat} (h0 : okTrack S id)
+    (hd : ∀ t', S'.track? id = some t' → perf S' t' ≠ .error .depth) : okTrack S' id := by
+  obtain ⟨t, items, ht, hp⟩ := h0
+  obtain ⟨t', h2, hr⟩ := h.rel ht
+  obtain ⟨y, hy⟩ := hr.accepts hp (hd t' h2)
+  exact ⟨t', y, h2, hy⟩
+
+/-- `chain S [S1, …, Sn]`: `S → S1 → … → Sn` are optimiser passes -/
+def chain : Song → List Song → Prop
+  | _, [] => True
+  | S, S1 :: r => Step S S1 ∧ chain S1 r
+
+def lastSong : Song → List Song → Song
+  | S, [] => S
+  | _, S1 :: r => lastSong S1 r
+
+/-- **Any finite sequence of passes preserves the observation of every original track**,
+provided the track validates in every intermediate song. -/
+theorem C01_passes_preserve (S : Song) (l : List Song) (hc : chain S l) (id : Nat)
+    (h0 : okTrack S id) (hall : ∀ T ∈ l, okTrack T id) :
+    obsOf (lastSong S l) id = obsOf S id := by
+  induction l generalizing S with
+  | nil => rfl
+  | cons S1 r ih =>
+    obtain ⟨hs, hr⟩ := hc
+    have h1 : okTrack S1 id := hall S1 (List.mem_cons_self)
+    have := ih S1 hr h1 (fun T hT => hall T (List.mem_cons_of_mem _ hT))
+    simp only [lastSong]
+    rw [this]
+    exact hs.preserve h0 h1
+
+/-- the same with the weaker premise that no intermediate performance of the track runs out of
+stack frames: then all of them validate -/
+theorem C01_passes_preserve_nodepth (S : Song) (l : List Song) (hc : chain S l) (id : Nat)
+    (h0 : okTrack S id)
+    (hall : ∀ T ∈ l, ∀ t', T.track? id = some t' → perf T t' ≠ .error .depth) :
+    okTrack (lastSong S l) id ∧ obsOf (lastSong S l) id = obsOf S id := by
+  induction l generalizing S with
+  | nil => exact ⟨h0, rfl⟩
+  | cons S1 r ih =>
+    obtain ⟨hs, hr⟩ := hc
+    have h1 : okTrack S1 id := hs.accepts h0 (hall S1 (List.mem_cons_self))
+    obtain ⟨i1, i2⟩ := ih S1 hr h1 (fun T hT => hall T (List.mem_cons_of_mem _ hT))
+    simp only [lastSong]
+    exact ⟨i1, by rw [i2]; exact hs.preserve h0 h1⟩
+
+/-- The full property, for an optimiser model that is still to be written (the search
+`find_best_match`, the stack analysis and the pass loop of src/optimizer.cpp): it is a parameter
+here, with the hypothesis that a normal return is a sequence of passes.  NOT proved, and not
+provable from that hypothesis alone: one also has to show that the optimiser always returns
+normally and that its stack analysis keeps every intermediate performance within the depth limit
+(that is where defects D1/D18 live); given that, `C01_passes_preserve_nodepth` concludes. -/
+def C01_full_statement : Prop :=
+  ∀ (optimize : Nat → Song → Except Unit Song),
+    (∀ thr S S', optimize thr S = .ok S' → ∃ l, chain S l ∧ lastSong S l = S') →
+    ∀ (thr : Nat) (S : Song), (∀ id, S.track? id ≠ none → okTrack S id) →
+      ∃ S', optimize thr S = .ok S' ∧ ∀ id, S.track? id ≠ none → obsOf S' id = obsOf S id
+
+/-- what is proved of it: every normal return whose intermediate songs stay within the depth
+limit has the same observation for every original track -/
+theorem C01_full_partial (optimize : Nat → Song → Except Unit Song)
+    (hopt : ∀ thr S S', optimize thr S = .ok S' → ∃ l, chain S l ∧ lastSong S l = S' ∧
+      ∀ T ∈ l, ∀ id t', T.track? id = some t' → perf T t' ≠ .error .depth)
+    (thr : Nat) (S S' : Song) (hS : ∀ id, S.track? id ≠ none → okTrack S id)
+    (hr : optimize thr S = .ok S') (id : Nat) (hid : S.track? id ≠ none) :
+    okTrack S' id ∧ obsOf S' id = obsOf S id := by
+  obtain ⟨l, hc, hl, hd⟩ := hopt thr S S' hr
+  rw [← hl]
+  exact C01_passes_preserve_nodepth S l hc id (hS id hid) (fun T hT t' ht' => hd T hT id t' ht')
+
+
+/-! ## concrete instances
+
+The hypotheses are satisfiable by non-trivial values, and the conclusions are checked by
+kernel evaluation (`decide`) on small songs. -/
+namespace Ex
+
+instance : DecidableEq (Nat × Int × Nat × Nat) := inferInstance
+instance : DecidableEq Obs := inferInstance
+
+def note (n : Int) : Event := ⟨ev_NOTE, n, 6, 0⟩
+def lsE : Event := ⟨ev_LOOP_START, 0, 0, 0⟩
+def lbE : Event := ⟨ev_LOOP_BREAK, 0, 0, 0⟩
+def leE (n : Int) : Event := ⟨ev_LOOP_END, n, 0, 0⟩
+def jmp (n : Int) : Event := ⟨ev_JUMP, n, 0, 0⟩
+def segnoE : Event := ⟨ev_SEGNO, 0, 0, 0⟩
+
+/-- `A0 = c`, `A1 = [d]2 e` -/
+def A0 : List Node := [.ev (note 1)]
+def A1 : List Node := [.loop lsE [.ev (note 2)] (leE 2), .ev (note 3)]
+
+theorem side : FoldSide A0 A1 1 lsE lbE (leE 3) := by
+  constructor <;> first | decide | (simp [A0, A1, closedL, Node.closed] <;> decide)
+
+/-- the context opens a loop before the segment and closes it after it (so neither `pre` nor
+`post` is balanced), and has a loop point -/
+def pre : List Event := [note 9, segnoE, lsE, note 8]
+def post : List Event := [note 7, leE 2, note 6]
+
+/-- track 0 calls track 1, which contains `A A A0` -/
+def S : Song := { tracks := [(0, [note 5, jmp 1, note 5]), (1, pre ++ foldX A0 A1 1 ++ post)] }
+def S' : Song := { tracks := [(0, [note 5, jmp 1, note 5]), (1, pre ++ foldX' A0 A1 lsE lbE (leE 3) ++ post)] }
+
+example : foldX A0 A1 1 = [note 1, lsE, note 2, leE 2, note 3, note 1, lsE, note 2, leE 2, note 3, note 1] := by decide
+example : foldX' A0 A1 lsE lbE (leE 3) = [lsE, note 1, lbE, lsE, note 2, leE 2, note 3, leE 3] := by decide
+
+/-- the theorem applies to this song: for the rewritten track and for its caller -/
+example (id : Nat) (t t' : List Event) (ht : S.track? id = some t) (ht' : S'.track? id = some t')
+    (items items' : List Item) (hp : perf S t = .ok items) (hp' : perf S' t' = .ok items') :
+    obs items' = obs items :=
+  C01_fold_sound side S S' [(0, [note 5, jmp 1, note 5])] [] 1 pre post rfl rfl id t t' ht ht' items items' hp hp'
+
+/-- … and its conclusion, evaluated: both tracks validate before and after and are observed equal
+(24 notes and the loop point event in track 1, 144 ticks, loop point at tick 6) -/
+example : obsOf S' 1 = obsOf S 1 ∧ obsOf S' 0 = obsOf S 0 ∧
+    (obsOf S 1).map (fun o => (o.1.length, o.2)) = some (25, 144, some 6) ∧ (obsOf S 0).isSome = true := by
+  decide
+
+/-- the depth proviso of `C01_fold_accepts` cannot be dropped (defect D18): nine enclosing loops
+plus the loop inside `A1` use all ten frames; the fold needs an eleventh -/
+def deepPre : List Event := List.replicate 9 lsE
+def deepPost : List Event := List.replicate 9 (leE 1)
+
+def isOk : Res → Bool | .ok _ => true | .error _ => false
+def isDepthErr : Res → Bool | .error .depth => true | _ => false
+
+example : isOk (perf ⟨[]⟩ (deepPre ++ foldX A0 A1 0 ++ deepPost)) = true ∧
+    isDepthErr (perf ⟨[]⟩ (deepPre ++ foldX' A0 A1 lsE lbE (leE 2) ++ deepPost)) = true := by
+  decide
+
+/-- fold without remainder: `(c [d]2 e)^3 ↦ [c [d]2 e]3` -/
+theorem side0 : Fold0Side (A0 ++ A1) 2 lsE (leE 3) := by
+  constructor <;> first | decide | (simp [A0, A1, closedL, Node.closed] <;> decide)
+
+def T : Song := { tracks := [(3, pre ++ fold0X (A0 ++ A1) 2 ++ post)] }
+def T' : Song := { tracks := [(3, pre ++ fold0X' (A0 ++ A1) lsE (leE 3) ++ post)] }
+
+example (id : Nat) (t t' : List Event) (ht : T.track? id = some t) (ht' : T'.track? id = some t')
+    (items items' : List Item) (hp : perf T t = .ok items) (hp' : perf T' t' = .ok items') :
+    obs items' = obs items :=
+  C01_fold0_sound side0 T T' [] [] 3 pre post rfl rfl id t t' ht ht' items items' hp hp'
+
+example : obsOf T' 3 = obsOf T 3 ∧ (obsOf T 3).isSome = true := by decide
+
+/-- extraction of `X = c [d]2 e` (twice in track 0, once inside a loop of track 2) into the
+fresh track 15000 -/
+def X : List Node := A0 ++ A1
+def j : Event := jmp 15000
+
+theorem sideX : ExtractSide X j := by
+  constructor <;> first | decide | (simp [X, A0, A1, closedL, Node.closed] <;> decide)
+
+def U : Song := { tracks := [(0, [note 9] ++ flattenL X ++ [note 8] ++ flattenL X ++ [segnoE]),
+                             (2, [lsE] ++ flattenL X ++ [leE 2])] }
+def U' : Song := { tracks := [(0, [note 9] ++ [j] ++ [note 8] ++ [j] ++ [segnoE]),
+                              (2, [lsE] ++ [j] ++ [leE 2]),
+                              (15000, flattenL X)] }
+
+example (id : Nat) (t t' : List Event) (ht : U.track? id = some t) (ht' : U'.track? id = some t')
+    (items items' : List Item) (hp : perf U t = .ok items) (hp' : perf U' t' = .ok items') :
+    obs items' = obs items := by
+  refine C01_extract_sound sideX U U' [(0, [note 9] ++ [j] ++ [note 8] ++ [j] ++ [segnoE]),
+    (2, [lsE] ++ [j] ++ [leE 2])] [] (by decide) ?_ rfl id t t' ht ht' items items' hp hp'
+  refine .cons 0 (erel_two X j _ _ _) (.cons 2 ?_ .nil)
+  have := ERel.ctx X [.ev j] [lsE] [leE 2]
+  rwa [flatten_jump] at this
+
+example : obsOf U' 0 = obsOf U 0 ∧ obsOf U' 2 = obsOf U 2 ∧ (obsOf U 0).isSome = true ∧
+    (obsOf U 2).isSome = true := by decide
+
+/-- a one-step chain for `C01_passes_preserve` -/
+example : chain S [S'] :=
+  ⟨.fold A0 A1 1 lsE lbE (leE 3) side
+      (fold_songRel (l1 := [(0, [note 5, jmp 1, note 5])]) (l2 := []) (tid := 1) (pre := pre) (post := post) rfl rfl),
+    trivial⟩
+
+end Ex
 
 end Ctrmml.C01
